@@ -5,7 +5,7 @@
          form: ( inm ims )
            inm: 0 | x<raw header> | ( ( befores ) ws1 weak ws2 ( afters ) )
            ims: 0 absent | 1 Last-Modified of response j | ( ) unparseable/empty | ( p ) parsed second
-         op:   ( 0 dt size ) rewrite | ( 1 dt ) touch | ( 2 dt ) wait | ( 3 j form-index ) request
+         op:   ( 0 dt size ) rewrite | ( 1 dt ) touch | ( 2 dt ) wait | ( 4 dt size ) restore (old mtime kept) | ( 5 dt back ) utime | ( 3 j form-index ) request
          etag table: ( mtime_ns size x<etag> )  — generate_etag of the implementation for each file state
          isec table: ( t_ns second )            — int(float timestamp) as CPython computes it
       -> one ( status ( ver len )|() etag|() lm|() ) per request, then ( "laws" ) (the implementation side lists
@@ -79,6 +79,8 @@ Definition rd_op (forms : list (inm_spec * ims_spec)) (x : sx) : option op :=
   | Lst [Num 0%Z; Num dt; Num sz] => Some (Rewrite (Z.to_N dt) (Z.to_N sz))
   | Lst [Num 1%Z; Num dt] => Some (Touch (Z.to_N dt))
   | Lst [Num 2%Z; Num dt] => Some (Wait (Z.to_N dt))
+  | Lst [Num 4%Z; Num dt; Num sz] => Some (Restore (Z.to_N dt) (Z.to_N sz))
+  | Lst [Num 5%Z; Num dt; Num back] => Some (SetMtime (Z.to_N dt) (Z.to_N back))
   | Lst [Num 3%Z; Num j; Num k] =>
       match nth_error forms (Z.to_nat k) with
       | Some (i, m) => Some (Req (Z.to_nat j) i m)
